@@ -30,6 +30,11 @@ func (w *World) syncFrom(src, dst *Node) error {
 	vs := w.Stream(src)
 	// random permutation: LoadDag must not depend on the stream order
 	w.c.Rnd.Shuffle(len(vs), func(i, j int) { vs[i], vs[j] = vs[j], vs[i] })
+	// LoadDag does not re-validate funds: a ledger copied from a node that exempted trusted sealers carries
+	// those exempt vertices, so the conservation statement is not about it either
+	if w.everTrusted[src.id] {
+		w.everTrusted[dst.id] = true
+	}
 	return w.Load(dst, vs)
 }
 
